@@ -100,6 +100,24 @@ def cleanup_complete(ctx, rule='reference-cleanup-complete'):
         r.ok(rule, 'inverse-sets', 'the deleted node is removed from the inverse set of each neighbour', loc=setrem[0].loc)
     else:
         r.fail(rule, 'inverse-sets', 'the inverse sets of the neighbours are not updated with exactly one HashSet::remove (found %d)' % len(setrem), loc=hb[0].loc)
+    # an emptied entry is removed from the map it was found in: the k-th HashMap::remove hits the map of the k-th get_mut
+    seqs = {'get_mut': [], 'remove': []}
+    for b_ in hb:
+        Fb = ctx.facts(b_)
+        order = sorted(b_.reachable_blocks(0))
+        for c in sorted([c for c in b_.calls() if c.bb in order], key=lambda c: c.bb):
+            m_ = re.search(r'HashMap::(get_mut|remove)$', c.callee)
+            if m_ and c.args:
+                t_ = fmt_sym(b_, Fb.sym_operand(c.args[0]))
+                name = 'references_map' if re.search(r'[._]references_map(\(_[\d.]+\))?$', t_) else ('referenced_by_map' if re.search(r'[._]referenced_by_map(\(_[\d.]+\))?$', t_) else None)
+                if name:
+                    seqs[m_.group(1)].append(name)
+    n += 1
+    if seqs['get_mut'] and seqs['get_mut'] == seqs['remove']:
+        r.ok(rule, 'emptied-entries', 'each emptied entry is removed from the map it was looked up in (%s)' % ', '.join(seqs['remove']), loc=hb[0].loc)
+    else:
+        r.fail(rule, 'emptied-entries', 'entries are looked up in %s but removed from %s: an emptied forward list deletes the inverse index of a live node (or the other way round)'
+               % (seqs['get_mut'], seqs['remove']), loc=hb[0].loc)
     db_ = db.body(R + 'delete_node_references')
     if db_ is None:
         r.lost(rule, 'delete_node_references', 'not found')
@@ -114,4 +132,4 @@ def cleanup_complete(ctx, rule='reference-cleanup-complete'):
         else:
             r.fail(rule, 'delete_node_references', 'delete_node_references removes %s and cleans %d neighbour set(s): expected both maps and both directions' % (rem, len(helper)), loc=db_.loc)
     r.count('cleanup_sites', n)
-    r.floor(rule, 'cleanup_sites', n, 3)
+    r.floor(rule, 'cleanup_sites', n, 4)
